@@ -477,6 +477,8 @@ def gen_history(rng, spec, table, style=None, prefer_variadic=False):
                 steps.append(json.loads(json.dumps(c)))
         else:
             steps.append({"op": "cleanup"})
+    if rng.random() < 0.2:
+        steps.insert(rng.randrange(len(steps) + 1), {"op": "terrorf"})     # an unrelated non-fatal t.Errorf of the test
     if rng.random() < 0.85:
         steps.append({"op": "cleanup"})
     return {"mock": spec["struct"], "ctor": ctor, "steps": steps}
@@ -536,6 +538,8 @@ def tail_term(m, a):
 def step_term(step, mi, m, beh):
     if step["op"] == "cleanup":
         return "WOp OCleanup"
+    if step["op"] == "terrorf":
+        return "WTestErrorf"
     if step["op"] == "setbuf":
         return "WSetBuf %d %s" % (step["b"], coq_list(tail_term(m, a) for a in step["args"]))
     if step["op"] == "mutate":
@@ -641,7 +645,7 @@ def case_term(h, obs, spec, table):
     for s, o in zip(h["steps"], obs):
         m = table[idx[s["m"]]] if "m" in s else None
         ops.append(step_term(s, idx.get(s.get("m"), 0), m, beh))
-        if s["op"] not in ("setbuf", "mutate"):
+        if s["op"] not in ("setbuf", "mutate", "terrorf"):
             ob.append(obs_term(o, m))
     return "mkC %s %s %s %s\n  %s\n  %s" % (coq_list(sig_term(m) for m in table), coq_bool(spec["unroll"] is True), coq_bool(h["ctor"]),
                                        coq_list("(%d, %s)" % (f, coq_list(r)) for f, r in beh), coq_list(ops), coq_list(ob))
@@ -730,9 +734,9 @@ def oracle(h, obs, spec, table):
                 bad("unclassified Errorf")
         if o["out"] == "panic" and o.get("class") in ("other", None):
             bad("unclassified panic: %s" % o.get("msg"))
-        if s["op"] in ("setbuf", "mutate"):
+        if s["op"] in ("setbuf", "mutate", "terrorf"):
             if o["out"] != "done":
-                bad("writing the caller's buffer failed: %s" % o)
+                bad("writing the caller's buffer / failing the test failed: %s" % o)
             continue
         if s["op"] == "expect":
             m = by[s["m"]]
@@ -890,6 +894,68 @@ def shadowed(e, h, obs, upto, by, unroll):
 
 
 # --------------------------------------------------------------------------- running
+def structs_of(h):
+    return [h["mock"]] + h.get("extra", [])
+
+
+def project(h, ob, k):
+    """The history as mock number k of it sees it: its own steps, the steps on the shared t (the test
+    failing t, cleanups), and of every cleanup step only what ITS cleanup did on t."""
+    steps, obs = [], []
+    for s, o in zip(h["steps"], ob):
+        if s["op"] == "cleanup":
+            seg, cur = [], None
+            for e in o["events"]:
+                if e["e"] == "cleanup":
+                    cur = e["k"]
+                elif cur == k:
+                    seg.append(e)
+            steps.append(s); obs.append(dict(o, events=seg))
+        elif s["op"] == "terrorf" or s.get("k", 0) == k:
+            steps.append({x: y for x, y in s.items() if x != "k"}); obs.append(o)
+    return {"mock": structs_of(h)[k], "ctor": h["ctor"], "steps": steps}, obs
+
+
+def judge(mod, h, ob):
+    """oracle of every mock of the history, each on its own projection"""
+    errs, stats = [], {}
+    for k, st in enumerate(structs_of(h)):
+        spec, table = mod["tables"][st]
+        hk, ok = project(h, ob, k)
+        e, s2 = oracle(hk, ok, spec, table)
+        errs += [("mock %d (%s): " % (k, st) if len(structs_of(h)) > 1 else "") + x for x in e]
+        for a, b in s2.items():
+            stats[a] = stats.get(a, 0) + b
+    return errs, stats
+
+
+def case_terms(mod, h, ob):
+    out = []
+    for k, st in enumerate(structs_of(h)):
+        spec, table = mod["tables"][st]
+        hk, ok = project(h, ob, k)
+        out.append(case_term(hk, ok, spec, table))
+    return out
+
+
+def gen_multi(rng, parts):
+    """2-3 mocks constructed on ONE t: their histories interleaved; the cleanups run together."""
+    subs = []
+    for k, (spec, table) in enumerate(parts):
+        st = [dict(x, k=k) for x in gen_history(rng, spec, table)["steps"] if x["op"] != "cleanup"]
+        subs.append(st)
+    steps = []
+    while any(subs):
+        k = rng.choice([i for i, x in enumerate(subs) if x])
+        steps.append(subs[k].pop(0))
+    if rng.random() < 0.3:
+        steps.insert(rng.randrange(len(steps) + 1), {"op": "cleanup"})
+    if rng.random() < 0.25:
+        steps.insert(rng.randrange(len(steps) + 1), {"op": "terrorf"})
+    steps.append({"op": "cleanup"})
+    return {"mock": parts[0][0]["struct"], "extra": [p[0]["struct"] for p in parts[1:]], "ctor": rng.random() < 0.97, "steps": steps}
+
+
 def run_histories(mod, hs):
     p = run([mod["bin"], "run"], cwd=mod["root"], inp=json.dumps(hs).encode(), timeout=600)
     if p.returncode != 0:
@@ -969,18 +1035,30 @@ def check(ctx, only=None):
         mod = build_module(ctx, k, m, explicit_false)
         t1 = _t.time()
         mod["name"], mod["module"], mod["explicit_false"] = name, m, explicit_false
-        mod["items"] = []           # (spec, table, history)
+        mod["items"] = []           # (spec, table, history); spec/table of the history's first mock
+        mod["tables"] = {}
         for spec in mod["specs"]:
             table = method_table(spec, mod["desc"][spec["struct"]])
-            if not table:
+            if table:
+                mod["tables"][spec["struct"]] = (spec, table)
+        for spec in mod["specs"]:
+            if spec["struct"] not in mod["tables"]:
                 continue
+            table = mod["tables"][spec["struct"]][1]
             if only is not None:
                 hs = [o2 for o in only if o["module_name"] == name for o2 in o["histories"] if o2["mock"] == spec["struct"]]
             else:
                 n_h = per_mock * (2 if (name == "edge" and spec["group"] is None) else 2 if name == "repl" else 1)
                 hs = [gen_history(rng, spec, table, prefer_variadic=spec["group"] is not None) for _ in range(n_h)]
             for h in hs:
-                mod["items"].append((spec, table, h))
+                if all(x in mod["tables"] for x in structs_of(h)):
+                    mod["items"].append((spec, table, h))
+        if only is None and len(mod["tables"]) >= 2:
+            # several mocks constructed on the same t (the later mock's cleanup runs first and may fail t)
+            pool = sorted(mod["tables"])
+            for _ in range(per_mock * (4 if name == "edge" else 2)):
+                parts = [mod["tables"][x] for x in rng.sample(pool, min(len(pool), rng.choice([2, 2, 3])))]
+                mod["items"].append((parts[0][0], parts[0][1], gen_multi(rng, parts)))
         mod["obs"] = run_histories(mod, [h for _, _, h in mod["items"]]) if mod["items"] else []
         mod["secs"] = [round(x, 1) for x in (t1 - t0, _t.time() - t1)]
         return mod
@@ -1011,28 +1089,32 @@ def check(ctx, only=None):
             flat.append((mod, spec, table, h, ob))
     oracle_fail, stats = {}, {}
     for i, (mod, spec, table, h, ob) in enumerate(flat):
-        e, st = oracle(h, ob, spec, table)
+        e, st = judge(mod, h, ob)
         for k, v in st.items():
             stats[k] = stats.get(k, 0) + v
         if e:
             oracle_fail[i] = e
-    terms = [case_term(h, ob, spec, table) for (_, spec, table, h, ob) in flat]
+    terms, owner = [], []
+    for i, (mod, spec, table, h, ob) in enumerate(flat):
+        for t in case_terms(mod, h, ob):
+            terms.append(t); owner.append(i)
     t_c = _t.time()
     bad, errs = coq_mismatches(ctx, HARNESS, terms, shard=120) if terms else ([], [])
+    bad = sorted({owner[j] for j in bad})
     timing["coq_s"] = round(_t.time() - t_c, 1)
 
     reported = set()
     for i in sorted(oracle_fail):
         mod, spec, table, h, ob = flat[i]
-        key = (spec["iface"]["name"], spec["unroll"] is True, spec["group"] is not None, symptom_class(oracle_fail[i][0]))
+        key = (spec["iface"]["name"], spec["unroll"] is True, spec["group"] is not None, len(structs_of(h)) > 1, symptom_class(oracle_fail[i][0]))
         if key in reported or len(reported) >= 8:
             continue
         reported.add(key)
-        cls = key[3]
-        small = shrink_history(mod, spec, table, h, lambda hh, oo: any(symptom_class(x) == cls for x in oracle(hh, oo, spec, table)[0]))
+        cls = key[4]
+        small = shrink_history(mod, spec, table, h, lambda hh, oo: any(symptom_class(x) == cls for x in judge(mod, hh, oo)[0]))
         so = run_histories(mod, [small])[0]
         rp = ctx.write_replay("oracle-%s-%s-%d" % (spec["struct"], cls, i), {
-            "what": oracle(small, so, spec, table)[0] or oracle_fail[i], "mock": spec["struct"], "unroll-variadic": spec["unroll"],
+            "what": judge(mod, small, so)[0] or oracle_fail[i], "mock": spec["struct"], "mocks_on_the_same_t": structs_of(small), "unroll-variadic": spec["unroll"],
             "template-data": spec["tdata"], "output_file": "mock_%s.go" % spec["file"],
             "settings_of_the_mocks_in_that_file": (spec["group"] or [None, None])[1],
             "interface": spec["iface"], "history": small, "observed": so,
@@ -1045,11 +1127,11 @@ def check(ctx, only=None):
         for i in bad[:3]:
             mod, spec, table, h, ob = flat[i]
             def fails(hh, oo):
-                b2, e2 = coq_mismatches(ctx, HARNESS, [case_term(hh, oo, spec, table)])
+                b2, e2 = coq_mismatches(ctx, HARNESS, case_terms(mod, hh, oo))
                 return bool(b2 or e2)
             small = shrink_history(mod, spec, table, h, fails)
             so = run_histories(mod, [small])[0]
-            exp = coq_show(ctx, HARNESS, "model_obs (%s)" % case_term(small, so, spec, table))
+            exp = [coq_show(ctx, HARNESS, "model_obs (%s)" % t, name="show%d" % j) for j, t in enumerate(case_terms(mod, small, so))]
             detail.append({"mock": spec["struct"], "unroll-variadic": spec["unroll"], "interface": spec["iface"], "history": small,
                            "observed": so, "model_expected": exp, "module_name": mod["name"], "module": mod["module"],
                            "explicit_false": mod["explicit_false"], "histories": [small]})
@@ -1062,6 +1144,9 @@ def check(ctx, only=None):
     # ---- evidence
     hist = {"mocks": sum(len(m["specs"]) for m in results), "histories": len(flat), "steps": sum(len(h["steps"]) for _, _, _, h, _ in flat),
             "unroll_true": sum(1 for _, s, _, _, _ in flat if s["unroll"] is True), "no_ctor": sum(1 for _, _, _, h, _ in flat if not h["ctor"]),
+            "histories_with_several_mocks_on_one_t": sum(1 for _, _, _, h, _ in flat if h.get("extra")),
+            "histories_where_the_test_fails_t_itself": sum(1 for _, _, _, h, _ in flat if any(s["op"] == "terrorf" for s in h["steps"])),
+            "cleanups_on_an_already_failed_t": 0, "model_cases": len(terms),
             "methods": {}, "position_types": {}, "generic_mocks": 0, "mocks_sharing_a_file": 0, "caller_buffers": {}, "shared_file_settings": {}, "lower_case_structs": 0, "setup_styles": {}, "outcomes": {}, "dropped_not_owned": [{"mock": d["spec"]["struct"], "stage": d["stage"], "error": d["error"][:200]} for _, d, _ in dropped_other][:20],
             "dropped_owned": len(owned_fail)}
     # replace-type slice: how the generated signatures differ from the declared ones
@@ -1107,7 +1192,11 @@ def check(ctx, only=None):
                 hist["shared_file_settings"][k] = hist["shared_file_settings"].get(k, 0) + 1
             if spec["struct"][0].islower():
                 hist["lower_case_structs"] += 1
+        failed = False
         for s, o in zip(h["steps"], ob):
+            if s["op"] == "cleanup" and failed and h["ctor"]:
+                hist["cleanups_on_an_already_failed_t"] += 1
+            failed = failed or s["op"] == "terrorf" or any(e["e"] in ("errorf", "failnow") for e in o["events"])
             if s["op"] in ("setbuf", "mutate") or (s["op"] == "expect" and "buf" in s):
                 k = "expect-spreading-buffer" if s["op"] == "expect" else s["op"]
                 hist["caller_buffers"][k] = hist["caller_buffers"].get(k, 0) + 1
